@@ -249,10 +249,14 @@ where
                     layout_parsing = false;
                     log!("\n{}", "*** Parsing layout".paint(WARN_BOLD));
                     let current_state = context.state();
+                    // The layout parser shifts layout tokens using this context.
+                    // Keep the span of the last content token.
+                    let current_span = context.span();
                     context.set_state(S::default_layout().unwrap());
                     let p = layout_parser.parse_with_context(context, input);
                     log!("Layout is {p:?}");
                     context.set_state(current_state);
+                    context.set_span(current_span);
                     if let Ok(Some(layout)) = p {
                         if layout.len() > 0 {
                             log!("Skipping layout: {layout:?}");
